@@ -59,6 +59,9 @@ def run(tier):
     _b_tables(chk)
     _c_lift(chk)
     _d_restriction(chk)
+    # the public facade binds every argument to the service parameter it is meant for (nominal swap rule, rules/common.py)
+    from . import common as _common
+    _common.facade_bindings(chk, "C09.a-facade", ['hiten.system.center', 'hiten.system.maps.center'], floor=15)
     return chk
 
 
